@@ -4,6 +4,7 @@
 -/
 import ClockBound.Properties.CodeTieThreads
 import ClockBound.Properties.CodeTieWorkers
+import ClockBound.Properties.OnCodeThreads
 #print axioms ClockBound.CodeTieThreads.main_eq
 #print axioms ClockBound.CodeTieThreads.drop_eq
 #print axioms ClockBound.CodeTieThreads.main_ops_pre
@@ -27,3 +28,14 @@ import ClockBound.Properties.CodeTieWorkers
 #print axioms ClockBound.CodeTieThreads.poller_iter_abs
 #print axioms ClockBound.CodeTieThreads.poller_end_kind
 #print axioms ClockBound.CodeTieThreads.writer_step_abs
+#print axioms ClockBound.OnCode.C15_drop_reports_poller
+#print axioms ClockBound.OnCode.C15_drop_reports_writer
+#print axioms ClockBound.OnCode.C15_main_stops_everything
+#print axioms ClockBound.OnCode.scenarioInp_admissible
+#print axioms ClockBound.OnCode.C15_main_code_within_model
+#print axioms ClockBound.OnCode.C15_main_model_within_code
+#print axioms ClockBound.OnCode.C15_main_in_every_schedule
+#print axioms ClockBound.OnCode.C15_exits_after_death
+#print axioms ClockBound.OnCode.C15_poller_thread_ends
+#print axioms ClockBound.OnCode.C15_writer_thread_ends
+#print axioms ClockBound.OnCode.C15_writer_open_failure
